@@ -300,7 +300,18 @@ pub fn run_thread<'w>(tid: usize, cfg: &MenuThread, targets: &'w [Target<'w>], _
 		rt::set_local(h.finish());
 		let c = rt::menu_point(menu);
 		let act = cfg.actions[c as usize].clone();
+		// while the action is in progress (it may block half-way) the action itself is part of the thread's local
+		// state: two threads blocked on the same raw operation inside different calls have different futures
+		let mut h = DefaultHasher::new();
+		(th.ks as u8, th.guard.as_ref().map(|g| (g.1, g.2)), 0x1234u16, c).hash(&mut h);
+		rt::set_local(h.finish());
+		rt::set_watch(match &act {
+			MAct::Lock { t, .. } | MAct::Try { t, .. } | MAct::Scoped { t, .. } | MAct::IsPoisoned { t } | MAct::ClearPoison { t } => Some(*t),
+			MAct::Unlock | MAct::DropGuard | MAct::ForgetGuard | MAct::PanicWithGuard => th.guard.as_ref().map(|g| g.1),
+			_ => None,
+		});
 		perform(&mut th, &act, targets, cfg);
+		rt::set_watch(None);
 		// the key probe after every step (C06)
 		let free = key_free();
 		if free && th.ks == KS::InGuard {
@@ -329,6 +340,16 @@ pub fn run_thread<'w>(tid: usize, cfg: &MenuThread, targets: &'w [Target<'w>], _
 	// leaked keys / guards stay leaked: the OS thread is retired by the pool
 	if let Some((g, _, _)) = th.guard.take() {
 		drop(g);
+	}
+}
+
+
+/// A free target that refuses a non-blocking acquisition while (the model says) one of its Poisonables is poisoned:
+/// "a poisoned acquisition still acquires the lock and its error carries a working guard" (C10).
+fn poisoned_refusal(t: &Target<'_>, ti: usize, w: &str) {
+	let poisoned: Vec<u32> = flags_of(t, ti, w).into_iter().map(|(f, _, _)| f).filter(|f| rt::pm_expect(*f) == Some(true)).collect();
+	if !poisoned.is_empty() {
+		rt::violation("C10", format!("poisoned-acquisition-refused|{}", rt::what_key(w)), format!("`{}` failed although every leaf was available; poisoned flags under the target: {:?}", w, poisoned));
 	}
 }
 
@@ -386,6 +407,7 @@ fn perform<'w>(th: &mut Th<'w>, act: &MAct, targets: &'w [Target<'w>], cfg: &Men
 					rt::end_call();
 					if expect_ok {
 						rt::violation("C13", format!("try-outcome|{}|expected-success", rt::what_key(&w)), format!("`{}` failed although every leaf was available: {}", w, rt::table_str()));
+						poisoned_refusal(t, ti, &w);
 					}
 					check_released(&w, "C04", "failed-try-holds");
 					th.key = Some(k);
@@ -503,6 +525,7 @@ fn perform<'w>(th: &mut Th<'w>, act: &MAct, targets: &'w [Target<'w>], cfg: &Men
 				Ok(Scoped::WouldBlock(k)) => {
 					if expect_ok {
 						rt::violation("C13", format!("try-outcome|{}|expected-success", rt::what_key(&w)), format!("`{}` failed although every leaf was available", w));
+						poisoned_refusal(t, ti, &w);
 					}
 					if count != 0 {
 						rt::violation("C04", format!("closure-count|{}", rt::what_key(&w)), format!("`{}` failed but ran the closure {} times", w, count));
